@@ -60,7 +60,9 @@ META = {
                    "generator-made identifiers and `<key>=`, Python-keyword keys go through the **{...} workaround, template keywords differ "
                    "from compiler-added ones). Defects found by these obligations: F5, F6, slice inside a multi-item subscript, collision with "
                    "compiler-added keywords and non-ASCII digits in float literals are repaired in /repo (fix: commits, listed under `fixed`); "
-                   "F7, F8, F9, F25 remain and are listed as known findings with native replays. The whole "
+                   "F7, F8 (blocks, indentation, parentheses), F9, F25, NFKC-colliding names, the keyword argument __debug__ and F10 (RecursionError, "
+                   "keyed by construct) remain and are listed as known findings with native replays. compiler.has_safe_repr is under contract "
+                   "(True implies every element, dict key and dict value is safe; table of containers with repr-unsafe members). The whole "
                    "pipeline is additionally exercised by a bounded, seeded grammar-based fuzz (stand-in, never reported as proved).",
     "assumptions": [
         "A8/A9 the `re` module implements its documented matching semantics; match objects are modelled from the parse tree of the real patterns "
